@@ -35,7 +35,7 @@ func init() {
 	})
 }
 
-var c14Relays = []string{"", "rs", "a b", "a+b", "a&b=c", "100%", "%41%zz", "é/?#[]@", " lead and trail ", "x=y&SigAlg=evil&Signature=AAAA", strings.Repeat("r", 4096), "tab\tnl\ncr\r", "~!*'();:@$,", "RelayState=1&SAMLRequest=zzz"}
+var c14Relays = []string{"", "rs", "a b", "a+b", "a&b=c", "100%", "%41%zz", "é/?#[]@", " lead and trail ", "x=y&SigAlg=evil&Signature=AAAA", strings.Repeat("r", 4096), "tab\tnl\ncr\r", "~!*'();:@$,", "RelayState=1&SAMLRequest=zzz", " ", "\t", "\r\n", "\u00a0", "\u3000 "}
 
 // draw order: builder, relay, signRequests, then DrawOut
 func c14Directed(tier string) [][]uint64 {
